@@ -16,6 +16,10 @@ CORPUS = [
     ("imports", 'import "pe"\nimport "tests"\nimport "hash"\nrule a { condition: tests.constants.one == 1 and pe.number_of_sections >= 0 or hash.md5(0, filesize) == "x" }'),
     ("meta_tags", 'global rule g : t1 t2 { meta: author = "me" n = 5 b = true condition: true }\nprivate rule p { condition: false }\nrule r : tag { meta: s = "str" strings: $a = "MK1;" condition: $a and g and not p }'),
     ("externals", 'rule e { condition: ext_i == 3 and ext_s contains "a" and ext_b and ext_f > 0.25 }'),
+    # rule sets that leave sections of the image empty: no strings at all; a regexp that is only an operand of `matches`
+    ("no_strings", 'rule n { meta: a = "b" condition: filesize >= 0 and ext_i == 3 }'),
+    ("matches_only", 'rule m { condition: ext_s matches /a.c/ or ext_s matches /^ab$/i }'),
+    ("bare", 'rule b { condition: true }'),
     # enough distinct atoms for the tables of the automaton to grow several times, children on the highest input bytes
     ("automaton", "\n".join('rule w%d { strings: $a = { %02X %02X %02X %02X } $b = { %02X %02X FF } condition: any of them }' % (i, 0x30 + i % 200, (i * 7) % 256, (i * 13) % 256, 0xFC + i % 4, i % 251, (i * 3) % 256)
                              for i in range(400))),
@@ -71,6 +75,7 @@ def save_corpus(wd, variant="asan", extra_opts=(), audits=None):
             if e["e"] == "Note": cur = e["text"]
             elif e["e"] == "RelocAudit" and "skipped" not in e: audits.append((cur, variant, e))
             elif e["e"] == "AcTables": audits.append((cur, variant, dict(e, actables=True)))
+            elif e["e"] == "Load": audits.append((cur, variant, {"loadret": e.get("ret", -1)}))
     return {name: open("%s/%s.yarc" % (wd, name), "rb").read() for name, _ in CORPUS}
 
 
@@ -333,6 +338,12 @@ def c08(res, tier, seed):
     failing_saves(res, tier, wd, imgs[2], r)
     audit_recs, audit_owners = [], []
     for (cname, variant, au) in corpus_audits:
+        if "loadret" in au:
+            # a complete image written by the library loads (ArenaFile!LoadBytes at the full length)
+            f = parse_image(imgs[0][cname])
+            audit_recs.append({"kind": "load", "file": {"nb": f["nb"], "sizes": f["sizes"], "nrel": f["nrel"]}, "n": len(imgs[0][cname]), "ret": ERRCLASS.get(au["loadret"], "E%d" % au["loadret"])})
+            audit_owners.append(("corpus entry " + cname + ": load of the complete saved file", variant, au))
+            continue
         if au.get("actables"):
             audit_recs.append({"kind": "actables", "size": au["size"], "t": au["t"], "m": au["m"]})
             audit_owners.append(("corpus entry " + cname, variant, au))
